@@ -118,8 +118,9 @@ def check(col: Collector, tier: str):
     okf = False
     for n in fills:
         for c in ast.walk(n):
-            if isinstance(c, ast.Call) and call_name(c) == "code_fill_ttree" and isinstance(n.target, ast.Tuple):
-                okf = [src(a) for a in c.args[:2]] == [src(n.target.elts[0]), f"{src(n.target.elts[1])}[1]"]
+            # (E-NORM N14: the pair of the zip is read by position - element 0 is the value, element 1 the (name, variable) entry)
+            if isinstance(c, ast.Call) and call_name(c) == "code_fill_ttree" and isinstance(n.target, ast.Name):
+                okf = [src(a) for a in c.args[:2]] == [f"{n.target.id}[0]", f"{n.target.id}[1][1]"]
     col.add("C03.R1", f.short, "filled-from-the-same-list", okf and len(fills) == 2,
             "value k must be written into variable k: code_fill_ttree(value, var_names entry [1]) over zip(values, var_names); the same zip drives the clears", f.loc)
 
